@@ -102,8 +102,6 @@ impl Scope {
     ) -> Option<Entry<'a>> {
         let local_entry = match self {
             Self::ContextName => return Some(Entry::Procedure(procedure)),
-            // the table builder never looks up `int`
-            Self::TypeExpression(_) if name == "int" => None,
             Self::TypeExpression(variables_end) => procedure
                 .local_table
                 .lookup(name)
